@@ -19,10 +19,12 @@ VARIANTS = [
     {"name": "fixed(owner-checked completion)", "findings": []},
 ]
 RULE = ("case = a history of events on one dataset (POST /entities with any combination of full-sync start/id/end headers and "
-        "sync ids none/1/2, start/page/end/failure of 2 fullsync job runs - issued either as datasetSink calls or, in half of the "
-        "cases, by the real FullSyncPipeline.sync over a scripted source - and 'all outstanding lease timers fire'), entities over "
+        "sync ids none/1/2, POST /transactions writes, start/page/end/failure of 2 fullsync job runs - issued either as datasetSink calls or, in half of the "
+        "cases, by the real FullSyncPipeline.sync over a scripted source - 'all outstanding lease timers fire', 'time passes, less than a lease' and 'the timers older than that fire'), entities over "
         "6 ids x 3 contents x deleted flag; well-formed syncs with 0-3 disturbances inserted plus unconstrained random histories "
-        "and a family 'leased sync, request rejected for its sync id, silence past the lease, then the sync's batches/end' "
+        "and a family 'leased sync, request rejected for its sync id, silence past the lease, then the sync's batches/end', "
+        "a family 'sync during which entities arrive only through a transaction' and a family 'leased sync, pause, re-start with "
+        "the same id / job start / refresh / rejected request / nothing, old timers fire, the sync's batches and end' "
         "(thorough: also all 1000 three-event continuations over a 10-event alphabet); after every event the status class, the "
         "change-feed length and the latest view are compared. "
         "Non-trivial = the history contains a rejected/gone/failed request or a completion that tombstones at least one entity; "
@@ -31,7 +33,7 @@ TRUSTED = [
     "time.AfterFunc/context deadline of the lease: modelled as the event 'the oldest outstanding timer fires' (EExpire), enabled at any "
     "point of a history; the driver only realises 'all outstanding timers fire' (waits past the deadline, then until no "
     "RefreshFullSyncLease goroutine is left) and discards-and-repeats an attempt in which a segment between two such points took "
-    "longer than 70% of the lease timeout",
+    "longer than 85% of the lease timeout",
     "the events of a history are executed one after the other and the driver waits after each until every lease goroutine has "
     "read the sync id it guards (the code reads ds.fullSyncID inside the goroutine): data races between the lease goroutine and a "
     "request in flight, and a lease goroutine that is scheduled only after the sync id changed, are outside the model",
@@ -75,7 +77,13 @@ def jabort(n):
     return {"k": "jabort", "n": n}
 
 
+def txn(ents):
+    return {"k": "txn", "ents": [list(e) for e in ents]}
+
+
 EXPIRE = {"k": "expire"}
+PAUSE = {"k": "pause"}            # time passes, less than a lease
+EXPIRE_OLD = {"k": "expire_old"}  # the timers that were running at the last pause fire, the younger ones do not
 
 
 def mk(events, pipeline=False):
@@ -126,6 +134,24 @@ def _witness_cases():
         mk([plain(BASE), jstart(1), jbatch(1, [(1, 2, 0)]), plain([(4, 1, 0)]), http([(5, 1, 0)], False, 3), EXPIRE,
             jbatch(1, [(2, 2, 0)]), jend(1)]),
         mk([plain(BASE), jstart(1), plain([]), http([], False, 3, True), EXPIRE, plain([(2, 2, 0)]), jend(1)]),
+        # a write through POST /transactions during a sync is a write since its start (HTTP- and job-driven)
+        mk([plain(BASE), http([(1, 2, 0)], True, 1), txn([(2, 5, 0)]), http([], False, 1, True)]),
+        mk([plain(BASE), jstart(1), jbatch(1, [(1, 2, 0)]), txn([(2, 1, 0), (4, 1, 0)]), jend(1)]),
+        mk([plain(BASE), txn([(3, 2, 1)]), http([], True, 0), txn([]), txn([(1, 1, 0)]), http([], False, 0, True)]),
+        # a superseded sync's lease timer is dead whatever the ids: start X re-sent, time passes beyond the first
+        # lease's deadline but within the second's, the restarted sync still completes
+        mk([plain(BASE), http([(1, 2, 0)], True, 1), dict(PAUSE), http([(1, 2, 0)], True, 1), http([(2, 2, 0)], False, 1),
+            dict(EXPIRE_OLD), http([(4, 1, 0)], False, 1, True)]),
+        # ... an HTTP sync without sync id superseded by a job-driven sync (both have id "")
+        mk([plain(BASE), http([(1, 2, 0)], True, 0), jstart(1), jbatch(1, [(1, 3, 0)]), dict(EXPIRE), jbatch(1, [(2, 2, 0)]),
+            jend(1)]),
+        mk([plain(BASE), http([(1, 2, 0)], True, 0), dict(PAUSE), jstart(1), jbatch(1, [(1, 3, 0)]), dict(EXPIRE_OLD),
+            jbatch(1, [(2, 2, 0)]), jend(1)]),
+        # a refreshed lease outlives the deadline of the lease it replaced; a silent sync does not
+        mk([plain(BASE), http([(1, 2, 0)], True, 1), dict(PAUSE), http([(2, 2, 0)], False, 1), dict(EXPIRE_OLD),
+            http([], False, 1, True)]),
+        mk([plain(BASE), http([(1, 2, 0)], True, 1), dict(PAUSE), http([(2, 2, 0)], False, 2), dict(EXPIRE_OLD),
+            http([], False, 1, True)]),
         # start+end in one request; end without sync
         mk([plain(BASE), http([(2, 2, 0)], True, 3, True), http([(1, 1, 0)], False, 3, True), http([], True, 0, True)]),
     ]
@@ -151,10 +177,12 @@ def rand_event(rng, nsid=2):
         return jstart(rng.range(1, 2))
     if r < 72:
         return jbatch(rng.range(1, 2), rand_ents(rng))
-    if r < 84:
+    if r < 82:
         return jend(rng.range(1, 2))
-    if r < 87:
+    if r < 84:
         return jabort(rng.range(1, 2))
+    if r < 90:
+        return txn(rand_ents(rng))
     return dict(EXPIRE)
 
 
@@ -189,7 +217,8 @@ def template_history(rng):
     for _ in range(rng.range(0, 3)):
         d = rng.choice([plain(rand_ents(rng, 2)), dict(EXPIRE), http(rand_ents(rng, 2), True, rng.range(0, 2)),
                         http(rand_ents(rng, 2), False, rng.range(0, 2), rng.chance(1, 2)), jstart(rng.range(1, 2)),
-                        jend(rng.range(1, 2)), jbatch(rng.range(1, 2), rand_ents(rng, 2)), jabort(rng.range(1, 2))])
+                        jend(rng.range(1, 2)), jbatch(rng.range(1, 2), rand_ents(rng, 2)), jabort(rng.range(1, 2)),
+                        txn(rand_ents(rng, 2)), txn(rand_ents(rng, 3))])
         evs.insert(rng.range(1, len(evs)), d)
     if sum(1 for e in evs if e["k"] == "expire") > 2:
         evs = [e for e in evs if e["k"] != "expire"]
@@ -234,10 +263,85 @@ def rejected_then_expire_history(rng):
     return evs
 
 
+def txn_during_sync_history(rng):
+    """a sync (HTTP- or job-driven) during which some entities arrive only through POST /transactions"""
+    evs = [plain([(i, 1, 0) for i in range(1, rng.range(3, 6))])]
+    job = rng.chance(1, 2)
+    n, sid = rng.range(1, 2), rng.range(0, 2)
+    evs.append(jstart(n) if job else http(rand_ents(rng, 2), True, sid))
+    for _ in range(rng.range(1, 3)):
+        r = rng.below(4)
+        if r <= 1:
+            evs.append(txn(rand_ents(rng, 3)))
+        elif job:
+            evs.append(jbatch(n, rand_ents(rng, 2)))
+        else:
+            evs.append(http(rand_ents(rng, 2), False, sid))
+    if not any(e["k"] == "txn" for e in evs):
+        evs.append(txn(rand_ents(rng, 3)))
+    evs.append(jend(n) if job else http(rand_ents(rng, 1), False, sid, True))
+    if rng.chance(1, 3):
+        evs.append(txn(rand_ents(rng, 2)))
+    return evs
+
+
+def partial_expiry_history(rng):
+    """leased sync(s); time passes, less than a lease; the sync is re-started with the same or another id / superseded
+    by a job / refreshed / rejected / left alone; the timers older than the pause fire, the younger ones do not; then
+    the batches and end requests of whoever should still be alive"""
+    evs = [plain([(i, 1, 0) for i in range(1, rng.range(3, 5))])]
+    sid = rng.range(0, 2)
+    n = rng.range(1, 2)
+    first = rng.below(4)
+    if first <= 1:
+        evs.append(http(rand_ents(rng, 2), True, sid))
+    elif first == 2:                                   # a job's sync leased by an id-less request (F09a)
+        sid = 0
+        evs.append(jstart(n))
+        evs.append(plain(rand_ents(rng, 2)))
+    else:                                              # an HTTP sync completed by a job end: its timer is left behind (F09b)
+        evs.append(jstart(n))
+        evs.append(http(rand_ents(rng, 2), True, sid))
+        evs.append(jend(n))
+    if rng.chance(1, 3):
+        evs.append(http(rand_ents(rng, 1), False, sid))
+    evs.append(dict(PAUSE))
+    for _ in range(rng.range(0, 2)):
+        r = rng.below(8)
+        if r <= 1:
+            evs.append(http(rand_ents(rng, 2), True, sid))                   # start re-sent with the same id
+        elif r == 2:
+            evs.append(http(rand_ents(rng, 2), True, rng.range(0, 2)))
+        elif r == 3:
+            evs.append(jstart(n))
+        elif r == 4:
+            evs.append(http(rand_ents(rng, 2), False, sid))                  # refresh
+        elif r == 5:
+            evs.append(http(rand_ents(rng, 1), False, rng.range(0, 3)))      # maybe foreign
+        elif r == 6:
+            evs.append(jbatch(n, rand_ents(rng, 2)))
+        else:
+            evs.append(txn(rand_ents(rng, 2)))
+    evs.append(dict(EXPIRE_OLD))
+    for _ in range(rng.range(0, 2)):
+        r = rng.below(4)
+        if r == 0:
+            evs.append(plain(rand_ents(rng, 2)))
+        elif r == 1:
+            evs.append(jbatch(n, rand_ents(rng, 2)))
+        else:
+            evs.append(http(rand_ents(rng, 2), False, sid))
+    evs.append(jend(n) if rng.chance(1, 3) else http(rand_ents(rng, 1), False, sid, True))
+    if rng.chance(1, 4):
+        evs.append(dict(EXPIRE))
+        evs.append(http([], False, sid, True))
+    return evs
+
+
 def gen(rng, tier):
     out = []
     if tier == "quick":
-        n_t, n_r = 130, 130
+        n_t, n_r = 110, 110
     elif tier == "search":
         n_t, n_r = 250, 250
     else:
@@ -248,6 +352,10 @@ def gen(rng, tier):
         out.append(mk(rand_history(rng, 3, 9), rng.chance(1, 2)))
     for _ in range({"quick": 50, "search": 80}.get(tier, 500)):
         out.append(mk(rejected_then_expire_history(rng), rng.chance(1, 2)))
+    for _ in range({"quick": 40, "search": 80}.get(tier, 400)):
+        out.append(mk(txn_during_sync_history(rng), rng.chance(1, 2)))
+    for _ in range({"quick": 60, "search": 100}.get(tier, 600)):
+        out.append(mk(partial_expiry_history(rng), rng.chance(1, 2)))
     if tier == "thorough":
         # every history of length 3 over a small alphabet after the common prefix (no timers: cheap)
         alpha = [http([(1, 2, 0)], True, 1), http([(2, 2, 0)], False, 1), http([(2, 2, 0)], False, 0),
@@ -306,6 +414,15 @@ def run(binp, cases):
     for i, part in enumerate(parts):
         for j, o in enumerate(part):
             obs[i + j * nproc] = o
+    # a skipped case is a timing flake of that case and never a failure - but if the driver cannot recognise the lease
+    # goroutine of this tree at all, or no history with a timer could be realised, nothing about leases was compared
+    if any("not recognisable" in (o.get("detail") or "") for o in obs):
+        raise RuntimeError("driver self-test failed on this tree: taking a lease does not start a goroutine named "
+                           "RefreshFullSyncLease.func* that ends after the lease time (lease-timer histories cannot be realised)")
+    timed = [o for c, o in zip(cases, obs) if any(e["k"] in ("expire", "expire_old") for e in c["events"])]
+    if len(timed) >= 10 and all(o.get("outcome") == "skipped" for o in timed):
+        raise RuntimeError("none of the %d histories with a lease expiry could be realised (all skipped): %s" % (
+            len(timed), timed[0].get("detail")))
     return obs
 
 
@@ -329,6 +446,12 @@ def ev_term(e):
         return "DEv (EJobEnd %d)" % e["n"]
     if k == "jabort":
         return "DNop"
+    if k == "txn":
+        return "DEv (ETxn %s)" % ents
+    if k == "pause":
+        return "DPause"
+    if k == "expire_old":
+        return "DExpireOld"
     return "DExpireAll"
 
 
@@ -364,7 +487,7 @@ class _Cur:
         self.started = False
         self.sid = 0
         self.lease = False
-        self.timers = []      # (captured sid, generation of the sync it was created in)
+        self.timers = []      # [captured sid, generation of the sync it was created in, old?]
         self.seen = set()
         self.own = None       # "http" | ("job", n)
         self.gen = 0
@@ -396,7 +519,7 @@ class _Cur:
         if self.started:
             if sid == self.sid:
                 self.cancel()
-                self.timers.append((self.sid, self.gen))
+                self.timers.append([self.sid, self.gen, False])
                 self.lease = True
                 return True
             return False
@@ -410,9 +533,9 @@ class _Cur:
         self.started, self.seen, self.lease, self.sid, self.own = False, set(), False, 0, None
         self.why_dead = why
 
-    def expire_all(self):
-        while self.timers:
-            sid, gen = self.timers.pop(0)
+    def expire_all(self, only_old=False):
+        while self.timers and (self.timers[0][2] or not only_old):
+            sid, gen, _ = self.timers.pop(0)
             if sid == self.sid:
                 if self.started:
                     self.why_dead = "expired-own-timer" if gen == self.gen else "expired-stale-timer"
@@ -438,12 +561,17 @@ class _Cur:
             return 0
         if k == "jstart":
             self.start_full_sync(("job", e["n"]))
-        elif k == "jbatch":
+        elif k in ("jbatch", "txn"):
             self.store(ents)
         elif k == "jend":
             self.complete("completed")
         elif k == "expire":
             self.expire_all()
+        elif k == "pause":
+            for t in self.timers:
+                t[2] = True
+        elif k == "expire_old":
+            self.expire_all(True)
         return 0
 
     def obs(self, status):
@@ -455,16 +583,22 @@ def _obs_steps(o):
 
 
 def _spec_active_after(evs):
-    """Model.FullSync.active_of"""
+    """Model.FullSync.active_of, with Check.C09Check.dsstep's reading of pause / expire_old"""
     a = None
+    fresh = True
     for e in evs:
         k = e["k"]
+        if k == "pause":
+            fresh = False
+        if k == "http" and (e.get("start") or (a is not None and a[0] == "http" and e.get("id", 0) == a[1])):
+            fresh = True
         if k == "http" and e.get("start"):
             a = None if e.get("end") else ("http", e.get("id", 0))
         elif k == "jstart":
             a = ("job", e["n"])
         elif a is not None:
-            if a[0] == "http" and ((k == "http" and e.get("end") and e.get("id", 0) == a[1]) or k == "expire"):
+            if a[0] == "http" and ((k == "http" and e.get("end") and e.get("id", 0) == a[1]) or k == "expire"
+                                   or (k == "expire_old" and not fresh)):
                 a = None
             elif a[0] == "job" and k == "jend" and e["n"] == a[1]:
                 a = None
